@@ -10151,8 +10151,18 @@ simplifier_output_sites(simplifier_t *self)
         goto out;
     }
 
+    /* Assign the output IDs first so that a parent listed after its child
+     * is also remapped correctly */
+    ret_id = (tsk_id_t) self->tables->mutations.num_rows;
     for (j = 0; j < num_mutations; j++) {
         mutation_id_map[j] = TSK_NULL;
+        if (mutation_node_map[j] != TSK_NULL) {
+            mutation_id_map[j] = ret_id;
+            ret_id++;
+        }
+    }
+
+    for (j = 0; j < num_mutations; j++) {
         if (mutation_node_map[j] != TSK_NULL) {
             tsk_mutation_table_get_row_unsafe(
                 &self->input_tables.mutations, (tsk_id_t) j, &mutation);
@@ -10169,7 +10179,7 @@ simplifier_output_sites(simplifier_t *self)
                 ret = (int) ret_id;
                 goto out;
             }
-            mutation_id_map[j] = ret_id;
+            tsk_bug_assert(ret_id == mutation_id_map[j]);
         }
     }
 out:
